@@ -9,6 +9,8 @@ This is the oracle's ground truth.  It is derived from the documentation's rules
   * "location is based only on inputs to the computation": persisted parameter values + recursively the input computations.
 It never hashes anything the way taskchain does.
 """
+from pathlib import PurePosixPath
+
 from .. import values as V
 
 NO_DEFAULT = '__REQUIRED__'
@@ -95,7 +97,7 @@ def build_chain_model(world, root_index, outer_ns=None):
                 if not p.get('placeholder'):
                     # a placeholder-bearing string reaches the task substituted, but is persisted in its placeholder form:
                     # by the property it has no influence on the result, so the provenance record leaves it out
-                    params[p['name']] = v
+                    params[p['name']] = v if not (p.get('dtype') == 'Path' and isinstance(v, str)) else str(PurePosixPath(v))
                 if p.get('dpd') and p['default'] != NO_DEFAULT and _pyeq(v, p['default']['v']):
                     continue
                 persisted[p['name']] = v
